@@ -149,9 +149,23 @@ def cases(draw, backend):
             return call(draw(st.sampled_from(scalar_specs)), depth + 1)
         return "j.pt()"
 
+    level = draw(st.sampled_from(["object", "event"]))
+
+    def receiver():
+        """the object a method-form function is called on: the loop variable, or any other expression that yields an object"""
+        opts = ["j", "j", "j"]
+        if backend == "atlas":
+            opts.append("j.parent()")
+        if level == "event":
+            opts += [f"e.{acc}({bank!r})[0]", f"e.{acc}({bank!r}).First()"]
+        r = draw(st.sampled_from(opts))
+        if r != "j":
+            labels_extra.add("receiver=" + ("link" if "parent" in r else "index" if "[0]" in r else "First"))
+        return r
+
     def call(s, depth=0):
         args = ", ".join(arg(depth) for _ in s["params"])
-        return f"j.{s['name']}({args})" if s["is_method"] else f"{s['name']}({args})"
+        return f"{receiver()}.{s['name']}({args})" if s["is_method"] else f"{s['name']}({args})"
 
     mode = draw(st.sampled_from(["ok", "ok", "ok", "ok", "wrong-arity", "wrong-style"]))
     ncalls = draw(st.integers(1, 3))
@@ -178,7 +192,6 @@ def cases(draw, backend):
         cols.append(f"{s['name']}({args})" if s["is_method"] else f"j.{s['name']}({args})")
         expect_error = True
     ds = dataset_text(sch, [s["md"] for s in specs])
-    level = draw(st.sampled_from(["object", "event"]))
     body = "(" + ", ".join(cols) + ("," if len(cols) == 1 else "") + ")"
     src = f"e.{acc}({bank!r})" + (f".Where(lambda j: {filt})" if filt else "")
     if level == "object":
